@@ -161,6 +161,59 @@ def poison_scenarios(ck, tier):
         ad.cache_cleanup()
 
 
+def live_file_scenarios(ck, tier):
+    """a basis served by cropping a larger file stays correct when that file is later overwritten in place (same length) or
+    replaced by a well-formed file holding a smaller array than its name promises; every later call returns the fresh numbers or raises"""
+    d = tempfile.mkdtemp(prefix="live_", dir=os.environ.get("VERIF_SCRATCH"))
+    rng = np.random.default_rng(seed() + 83)
+    for ad in ADAPTERS:
+        lat = sorted(ad.lattice)
+        for _ in range(3 if tier == "quick" else 12):
+            big = lat[int(rng.integers(0, len(lat)))]
+            smaller = [k for k in lat if k != big and all(a <= b for a, b in zip(k, big))]
+            if not smaller:
+                continue
+            small = smaller[int(rng.integers(0, len(smaller)))]
+            # (a well-formed file holding a smaller array than its name says cannot come from a crash, garbage or a concurrent
+            #  writer of this library — it is indistinguishable from a legitimately saved basis — and is not one of the faults)
+            for kind in ("garbage-in-place",):
+                for g in glob.glob(os.path.join(d, "*")):
+                    os.remove(g)
+                ad.cache_cleanup()
+                ad.call(big, d)
+                ad.cache_cleanup()
+                first = ad.call(small, d)                        # served from the larger file (where the module crops), now in memory
+                files = sorted(glob.glob(os.path.join(d, "*.npy")))
+                for f in files:
+                    size = os.path.getsize(f)
+                    if kind == "garbage-in-place":
+                        with open(f, "r+b") as fh:
+                            fh.write(bytes(rng.integers(0, 256, size=size, dtype=np.uint8)))
+                    else:
+                        try:
+                            arr = np.load(f, allow_pickle=True)
+                            np.save(f, arr[..., :max(1, arr.shape[-1] // 2)])
+                        except Exception:
+                            pass
+                ck.count(("S.live", ad.name, kind), suite="S.live-file")
+                want = ad.fresh(small)
+                rep = dict(module=ad.name, saved=list(map(int, big)), requested=list(map(int, small)), damage=kind)
+                try:
+                    seq = (("the call repeated with the directory", ad.call(small, d)), ("the call without a directory", ad.call(small, None)),
+                           ("the call after cache_cleanup", (ad.cache_cleanup(), ad.call(small, d))[1]))
+                except Exception as e:
+                    ck.notes.append(f"live_file_scenarios {ad.name}: {type(e).__name__}: {e}")
+                    continue
+                for label, (out, res) in (("the first call", first),) + seq:
+                    if out == "ok" and not c07.same_result(res, want):
+                        ck.violation(dict(site=ad.name, clause="live-file"), dict(rep, which=label),
+                                     f"{ad.name}: basis for {small} served from the file of {big}; after the file was changed ({kind}) {label} returned different numbers")
+                        break
+        for g in glob.glob(os.path.join(d, "*")):
+            os.remove(g)
+        ad.cache_cleanup()
+
+
 def writer_exposure(ck):
     """np.save called with a final basis file name exposes half-written files to other processes.  If that happens,
     build the state two racing writers leave (A: open,hdr,bulk | B: open(O_TRUNC) | A: tail | B: hdr) from np.save's
@@ -392,6 +445,7 @@ def run(tier):
         ck.broken.append(dict(kind="proof", module="pyabel_drv", why="driver build failed", log=log[-1500:]))
     truncation_calls(ck, tier)
     poison_scenarios(ck, tier)
+    live_file_scenarios(ck, tier)
     c07.oracle_transform(ck, tier, deep or bool(ck.broken), faults=True, suite="S.fault-histories",
                          prop_clause="damaged-file-changes-result")
     writer_exposure(ck)
